@@ -69,6 +69,9 @@ func runC30(r *lib.Run) {
 			if i%2 == 1 {
 				variant = "dangling"
 				mutated = c30Dangle(cfg, t, rng)
+				if strings.Contains(mutated, "another union member") {
+					r.Hit("mutation:same-number-other-union-member")
+				}
 				if mutated == "" {
 					variant = "satisfied"
 				}
@@ -103,6 +106,17 @@ func runC30(r *lib.Run) {
 			if r.Guard("Validate", w, func() { err = t.(validator).Validate() }) {
 				continue
 			}
+			// leafref checking is also "enabled" when an option struct is passed whose IgnoreMissingData
+			// is false: the verdict must be the same as without options
+			if i%3 == 0 {
+				var err2 error
+				if !r.Guard("Validate", w, func() { err2 = t.(validator).Validate(&ytypes.LeafrefOptions{IgnoreMissingData: false}) }) {
+					r.Hit("options:explicit-IgnoreMissingData=false")
+					if (err == nil) != (err2 == nil) {
+						r.Violate("explicit-options-differ", "IgnoreMissingData=false", fmt.Sprintf("Validate() = %v, Validate(&LeafrefOptions{IgnoreMissingData: false}) = %v", err, err2), w)
+					}
+				}
+			}
 			switch {
 			case len(dang) > 0 && err == nil:
 				for _, l := range dang {
@@ -124,6 +138,9 @@ func runC30(r *lib.Run) {
 					}
 					if strings.Contains(mutated, "predicate source unset") {
 						r.Hit("dangling:predicate-source-unset")
+					}
+					if strings.Contains(mutated, "another union member") {
+						r.Hit("dangling:same-number-other-union-member")
 					}
 				}
 			default:
@@ -177,6 +194,9 @@ func c30Dangle(cfg *lib.Cfg, t ygot.GoStruct, rng *rand.Rand) string {
 	grp := byPath[lps[rng.Intn(len(lps))]]
 	c := grp[rng.Intn(len(grp))]
 	fv := c.n.V.Elem().Field(c.f.Idx)
+	if fv.Kind() == reflect.Interface {
+		return c30UnionTwin(t, c.n, c.f, fv)
+	}
 	if fv.Kind() != reflect.Ptr {
 		return ""
 	}
@@ -237,6 +257,49 @@ func c30Dangle(cfg *lib.Cfg, t ygot.GoStruct, rng *rand.Rand) string {
 	}
 	fv.Set(e)
 	return "re-pointed " + lib.PathString(c.n.Path) + "/" + strings.Join(c.f.Path, "/")
+}
+
+// c30UnionTwin re-points a reference whose target is a union to the value of ANOTHER member with
+// the same number: enumeration value RED (1) becomes the integer 1 and vice versa.  The two are
+// different YANG values ("RED" vs "1"), so the reference dangles unless the integer happens to be
+// a target value too (the evaluator decides).
+func c30UnionTwin(root ygot.GoStruct, n *lib.Node, f *lib.FieldInfo, fv reflect.Value) string {
+	cur := fv.Elem()
+	for cur.Kind() == reflect.Ptr || cur.Kind() == reflect.Struct {
+		if cur.Kind() == reflect.Ptr {
+			cur = cur.Elem()
+		} else {
+			cur = cur.Field(0)
+		}
+	}
+	if cur.Kind() != reflect.Int64 {
+		return ""
+	}
+	conv := lib.FindUnionConv(n.V, fv.Type())
+	if !conv.IsValid() {
+		return ""
+	}
+	num := cur.Int()
+	var arg reflect.Value
+	if cur.Type().Implements(goEnumType) {
+		arg = reflect.ValueOf(num) // the plain integer with the enumeration value's number
+	} else {
+		for _, et := range enumTypesAt(root, f) {
+			if _, ok := lib.EnumDefs(et)[num]; ok {
+				arg = reflect.New(et).Elem()
+				arg.SetInt(num)
+			}
+		}
+	}
+	if !arg.IsValid() {
+		return ""
+	}
+	out := conv.Call([]reflect.Value{arg})
+	if len(out) != 2 || !out[1].IsNil() {
+		return ""
+	}
+	fv.Set(out[0])
+	return "re-pointed to the same number in another union member: " + lib.PathString(n.Path) + "/" + strings.Join(f.Path, "/")
 }
 
 var curPredRe = regexp.MustCompile(`\[(?:[\w.-]+:)?([\w.-]+)\s*=\s*current\(\)/\.\./(?:[\w.-]+:)?([\w.-]+)\]`)
